@@ -126,6 +126,39 @@ CHECKS["C20"] = dict(
          "sanitizer report, signal or hang.",
     note="unber bounds nesting at 2048 levels (diagnosed), so the round-trip domain is nesting <= 2048; enber on damaged text is exercised but gives notes only")
 
+CHECKS["C10"] = dict(
+    level="exploration", design="DESIGN.md §4 C10",
+    technique="property-based testing over generated module texts (Hypothesis: shared module generator + fragments + single injected semantic faults) x drawn option subsets; oracle: asn1c ends by exit, exit 0 => the emitted file set compiles as C99, links, headers parse as C++, descriptor self-check passes; exit != 0 => diagnostic; failing modules are reduced by dropping assignments and options",
+    text="Every case runs the asn1c built from /repo, then compiles exactly the files named in the generated makefiles with "
+         "clang -std=c99, links them all (the documented 'cc *.c' flow), links c/selfcheck.c against them to walk every "
+         "descriptor reachable from asn_pdu_collection[] (sorted tag maps, run offsets, presence/oms tables, canonical "
+         "order permutations, enumeration maps, PER range bits, OER widths, offsets inside the structure), and parses the "
+         "headers as C++.  A signal, hang, silent rejection, compile or link error or inconsistent table is a violation.",
+    note="a sample of an infinite space; classes listed in known_findings.txt are excluded by a text-level trigger and counted")
+CHECKS["C11"] = dict(
+    level="exploration", design="DESIGN.md §4 C11",
+    technique="property-based differential testing of asn1c's accept/reject verdict against an independent implementation of the X.680 distinctness rules (vf/ref_tags.py) over constructively generated modules with single-fault injection at Hypothesis-drawn positions",
+    text="Modules with manual and automatic tagging, reference chains and nested untagged CHOICEs are built unambiguous; then at "
+         "most one fault (tag collision through eight carriers, duplicated identifier, duplicated enumeration name/value, "
+         "dangling reference, one written tag that switches automatic tagging off, an added OPTIONAL) is injected.  asn1c "
+         "must exit 0 iff the reference accepts; a rejection must be an exit with a diagnostic and an empty output directory.",
+    note="situations the statement does not cover (collisions among extension additions only, runs across the extension marker) get the reference verdict 'outside' and are never judged")
+CHECKS["C12"] = dict(
+    level="exploration", design="DESIGN.md §4 C12",
+    technique="metamorphic property-based testing: repeated runs under perturbed environment, permutations of the module file list, and the asn1c -E print/parse cycle (fixpoint and same-generated-code) over generated single/multi-file modules and the shipped corpus",
+    text="R1 two runs (ASLR on, different MALLOC_PERTURB_, working directory and environment size) give identical files; R2 "
+         "every order of up to three module files gives identical per-type .c/.h; R3 the -E output is accepted and printing it "
+         "again gives the same text; R4 for generated non-parameterized modules the printed text compiles to the same files.",
+    note="generated makefiles and pdu_collection.c (which follow the command line) are not compared in R2; header comment lines naming the command line or source file are normalised")
+CHECKS["C15"] = dict(
+    level="fault_enumeration", design="DESIGN.md §4 C15",
+    technique="adversarial-input generation (nesting bombs, length/count bombs, fragmented PER lengths, mutated valid encodings) per syntax over Hypothesis-parameterised recursive modules; oracle: decode in a forked child on guarded stacks ends in RC_OK/WMORE/FAIL (never a fault in the guard page), and peak live heap / largest request <= A + B*n computed from the descriptors; libFuzzer backstop with malloc limit in the thorough tier",
+    text="Each module holds recursion through SEQUENCE, CHOICE, SET, SEQUENCE/SET OF, EXPLICIT tag chains and extension additions "
+         "plus strings and collections; inputs nest to depth 10^5, claim up to 2^64-1 octets or 2^63 elements with <= 64 octets "
+         "behind them; the decoder runs on the default context and on caller-supplied max_stack_size with 8 MiB, 1 MiB and "
+         "256 KiB stacks; the heap bound is type-derived and loose (honest values reach 6% of it, bombs exceed it by orders).",
+    note="a timed-out child is inconclusive (termination is C04); the bound definitions are in vf/c15.py and the evidence")
+
 NOT_YET = {
 }
 
